@@ -38,8 +38,23 @@ SHAPES = {
     "enum2": lambda: E2, "flag3": lambda: F3,
     "struct3": lambda: adata.StructLayout({"a": 1, "b": 2}),
     "range5": lambda: range(5), "u8": lambda: unsigned(8), "s8": lambda: signed(8), "s5": lambda: signed(5),
+    "u16": lambda: unsigned(16), "u33": lambda: unsigned(33), "u40": lambda: unsigned(40), "s34": lambda: signed(34),
 }
 WIDE_TOKENS = (0x00, 0xFF, 0x0F, 0xF0, 0x55, 0xAA, 0x80, 0x01)
+
+
+def wide_tokens(w):
+    """Data tokens for shapes wider than 3 bits.  Up to 8 bits: the 8 byte patterns; beyond: all-zero, all-ones, bit 0,
+    the top bit, and - beyond 32 bits - bit 32, the low 32 bits and the bits above them (a machine-word boundary)."""
+    mask = (1 << w) - 1
+    if w <= 8:
+        return sorted({t & mask for t in WIDE_TOKENS})
+    toks = {0, mask, 1, 1 << (w - 1)}
+    if w > 32:
+        toks |= {1 << 32, 0xFFFF_FFFF, mask & ~0xFFFF_FFFF}
+    else:
+        toks |= {mask >> (w // 2), mask & ~(mask >> (w // 2))}
+    return sorted(toks)
 
 
 def shape_width(name):
@@ -101,14 +116,14 @@ class InRegObserver:
             if name == "w_data":
                 # all values of the field's own bits x the neighbours' bits 0/1 patterns
                 vals = set()
-                for fv in (range(1 << self.w) if self.w <= 3 else [t & self.mask for t in WIDE_TOKENS]):
+                for fv in (range(1 << self.w) if self.w <= 3 else wide_tokens(self.w)):
                     for nb in (0, (1 << self.total) - 1, 0b01 << (self.total - 2), 0b10 << (self.total - 2)):
                         vals.add((nb & ~(self.mask << 2)) | (fv << 2))
                 doms.append(sorted(vals))
             elif w <= 3:
                 doms.append(range(1 << w))
             else:
-                doms.append(sorted({t & ((1 << w) - 1) for t in WIDE_TOKENS}))
+                doms.append(wide_tokens(w))
         self._letters = list(itertools.product(*doms))
 
     def letters(self, obs):
@@ -176,7 +191,7 @@ class Observer:
         self.init = (cfg.get("init", 0) & self.mask) if self.a in ("RW", "RW1C", "RW1S") else (None if self.a.startswith("Res") else 0)
         self.ii = comp.in_index
         self.pi = comp.probe_index
-        doms = [range(1 << w) if w <= 3 else sorted({t & ((1 << w) - 1) for t in WIDE_TOKENS}) for w in comp.in_widths]
+        doms = [range(1 << w) if w <= 3 else wide_tokens(w) for w in comp.in_widths]
         self._letters = list(itertools.product(*doms))
 
     def letters(self, obs):
@@ -237,6 +252,9 @@ def configs(tier):
             for init in (0, 0x5A, 0x80) if tier == "thorough" else (0x5A,):
                 out.append(dict(action=a, shape=sh, init=init & ((1 << shape_width(sh)) - 1)))
     for a in stor:
+        # beyond a machine word: 33 and 40 bits (34 signed), token alphabets
+        for sh, init in (("u33", 1 << 32), ("u40", 0x80_0000_0001), ("u16", 0x8001)) + ((("s34", 1 << 33),) if tier == "thorough" else ()):
+            out.append(dict(action=a, shape=sh, init=init))
         out.append(dict(action=a, shape="s2", init=1, elab_twice=True))
         # the same actions as fields of a real register (bus-side view), signed and unsigned, negative inits
         for sh, init in (("u2", 1), ("s2", 2), ("s3", 5), ("enum2", 3), ("u3", 0)) + ((("s8", 0x80), ("u8", 0x5A)) if tier == "thorough" else (("s5", 0x11),)):
